@@ -45,6 +45,7 @@ impl Board {
                 a.full,
             ),
             position_info: PositionInfo::verif_from_raw(a.hash, a.max_seen),
+            ..Default::default()
         }
     }
 
